@@ -70,12 +70,18 @@ def run(ctx):
              # captures of whole words: variable values that are valid UTF-8 with characters of 1, 2, 3 and 4 bytes
              "find all (at least 1 (not ' ')) = w", "find all (at least 2 any) = v maybe ' '", "replace all (at least 1 (not in ' ', 'a')) = w with w '|' w",
              "find all at least 1 ((at least 1 (not ' ')) = w maybe ' ') named ws", "find all (at least 1 any) = all"]
+    # result lists that mix the matches of several commands, with and without a replacement, in both orders (one list is rendered as one document)
+    mixed = ["replace all 'a' with 'X' find all any", "replace all any with '<' value '>' find all (any = x) maybe x", "find all any replace all any with '' find all any",
+             "replace all 'zzz' with 'q' find all any", "replace all (maybe 'a') = x 'b' with x find all at least 1 (any = c) named cs replace all any with ''",
+             "replace top 1 any with 'T' find top 2 any replace last 1 any with 'L' find last 1 any"]
     cases, meta = [], []
     for i in range(60 if quick else 6000):
-        p = rng.choice(progs)
-        if rng.random() < 0.3:
+        p = mixed[i] if i < len(mixed) else rng.choice(progs)
+        if i >= len(mixed) and rng.random() < 0.3:
             g = genprog.ProgGen(rng)
             p = g.program()
+        elif i >= len(mixed) and rng.random() < 0.3:
+            p = " ".join(rng.choice(progs) for _ in range(rng.choice([2, 3, 4])))
         texts = [hostile_text(rng) for _ in range(5)] + [""]
         cases.append({"op": "json", "src_hex": vh.hexs(p), "texts_hex": [vh.hexs(t) for t in texts]})
         meta.append((p, texts))
